@@ -15,3 +15,6 @@ import JugModel.Props.Memo
 #print axioms Jug.MemoProps.canLoad_truthful
 #print axioms Jug.C15.short_all_complete_iff
 #print axioms Jug.C15.short_all_complete_count
+#print axioms Jug.MemoProps.lock_seen_through_wrapper
+#print axioms Jug.MemoProps.lock_seen_failed_first
+#print axioms Jug.MemoProps.classify_through_wrappers
